@@ -15,7 +15,9 @@
                   and HedTag.__init__; short_tag / long_tag: the HedTag properties. *)
 From Coq Require Import List NArith.
 From HV Require Import Base.Res Base.Str Base.SchemaData Model.Schema Model.Resolve.
-From HV Require Import Proofs.SchemaProofs Proofs.ResolveProofs Proofs.ResolveExamples.
+From HV Require Import Model.Parse Proofs.ParseRefine Proofs.ParsePrint.
+From HV Require Import Model.Schema Model.Resolve.
+From HV Require Import Proofs.SchemaProofs Proofs.ResolveProofs Proofs.ResolveExamples Proofs.FormsWellFormed.
 From HV Require Gen.FoldTable Gen.Schema_8_0_0 Gen.SchemaWF_8_0_0 Gen.Schema_8_1_0 Gen.SchemaWF_8_1_0 Gen.Schema_8_2_0 Gen.SchemaWF_8_2_0 Gen.Schema_8_3_0 Gen.SchemaWF_8_3_0 Gen.Schema_score_1_0_0 Gen.SchemaWF_score_1_0_0 Gen.Schema_score_1_1_0 Gen.SchemaWF_score_1_1_0 Gen.Schema_score_2_0_0 Gen.SchemaWF_score_2_0_0 Gen.Schema_testlib_1_0_2 Gen.SchemaWF_testlib_1_0_2 Gen.Schema_testlib_2_0_0 Gen.SchemaWF_testlib_2_0_0 Gen.Schema_testlib_2_1_0 Gen.SchemaWF_testlib_2_1_0 Gen.Schema_testlib_3_0_0 Gen.SchemaWF_testlib_3_0_0.
 Import ListNotations.
 
@@ -96,6 +98,34 @@ Section C03.
                (fun H : fix_hash repaired = false => False_ind _ (Bool.diff_true_false H))).
   Qed.
 
+  (* ---- link to C02: the short and the long form are well-formed tag texts ----
+     [tagbody] (Proofs/ParseRefine.v) = non-empty, first and last code point not U+0020, no ',' '(' ')': what
+     the parser yields as a tag text and what C02's render_reparse asks of a rendering.
+     [names_clean S]: no schema name contains ',' '(' ')', no component starts with U+0020 (or is empty), no
+     name ends with U+0020.  Holds for resolved AND unresolved texts (an unresolved tag renders as itself), for
+     every schema namespace [sns] whatsoever, before and after the repairs. *)
+  Theorem C03_short_form_wellformed : forall S, WFschema foldc S = true -> names_clean S = true ->
+    forall T, build_table foldc S = Ok T ->
+    forall fx sns t, tagbody t -> tagbody (short_tag (hedtag_init foldc fx T sns t)).
+  Proof. exact (short_form_wellformed foldc fold_slash fold_hash). Qed.
+
+  Theorem C03_long_form_wellformed : forall S, WFschema foldc S = true -> names_clean S = true ->
+    forall T, build_table foldc S = Ok T ->
+    forall fx sns t, tagbody t -> tagbody (long_tag (hedtag_init foldc fx T sns t)).
+  Proof. exact (long_form_wellformed foldc fold_slash fold_hash). Qed.
+
+  (* hence (C02_render_reparse): for EVERY annotation text s, printing its parse tree with every tag in short
+     form -- or every tag in long form -- and parsing the result gives the same nesting with the same
+     (short resp. long) tag texts *)
+  Theorem C03_print_short_long_reparse : forall S, WFschema foldc S = true -> names_clean S = true ->
+    forall T, build_table foldc S = Ok T ->
+    forall fx sns (s : str),
+      (let l := map (map_sh (fun t => short_tag (hedtag_init foldc fx T sns t))) (parse_sh s) in
+       parse_sh (pr_list l) = l) /\
+      (let l := map (map_sh (fun t => long_tag (hedtag_init foldc fx T sns t))) (parse_sh s) in
+       parse_sh (pr_list l) = l).
+  Proof. exact (print_short_long_reparse foldc fold_slash fold_hash). Qed.
+
   (* ---- record of the repaired defects: what held of the code BEFORE the two fix: commits ---- *)
 
   (* before the '#' repair (C03-F2) the round trip held only for texts without "/#/" *)
@@ -129,6 +159,9 @@ Print Assumptions C03_suffix_resolves.
 Print Assumptions C03_hedtag_suffix.
 Print Assumptions C03_remainder_verbatim.
 Print Assumptions C03_long_short_inverse.
+Print Assumptions C03_short_form_wellformed.
+Print Assumptions C03_long_form_wellformed.
+Print Assumptions C03_print_short_long_reparse.
 Print Assumptions C03_long_short_inverse_before_hash_fix.
 Print Assumptions C03_before_index_fix_same_on_simple_foldings.
 
@@ -197,6 +230,30 @@ Example C03_wf_testlib_2_1_0 : WFschema FoldTable.py_fold (map td_long Schema_te
 Proof. exact SchemaWF_testlib_2_1_0.wf. Qed.
 Example C03_wf_testlib_3_0_0 : WFschema FoldTable.py_fold (map td_long Schema_testlib_3_0_0.tags) = true.
 Proof. exact SchemaWF_testlib_3_0_0.wf. Qed.
+
+(* ... and so is names_clean *)
+Example C03_clean_8_0_0 : names_clean (map td_long Schema_8_0_0.tags) = true.
+Proof. exact SchemaWF_8_0_0.clean. Qed.
+Example C03_clean_8_1_0 : names_clean (map td_long Schema_8_1_0.tags) = true.
+Proof. exact SchemaWF_8_1_0.clean. Qed.
+Example C03_clean_8_2_0 : names_clean (map td_long Schema_8_2_0.tags) = true.
+Proof. exact SchemaWF_8_2_0.clean. Qed.
+Example C03_clean_8_3_0 : names_clean (map td_long Schema_8_3_0.tags) = true.
+Proof. exact SchemaWF_8_3_0.clean. Qed.
+Example C03_clean_score_1_0_0 : names_clean (map td_long Schema_score_1_0_0.tags) = true.
+Proof. exact SchemaWF_score_1_0_0.clean. Qed.
+Example C03_clean_score_1_1_0 : names_clean (map td_long Schema_score_1_1_0.tags) = true.
+Proof. exact SchemaWF_score_1_1_0.clean. Qed.
+Example C03_clean_score_2_0_0 : names_clean (map td_long Schema_score_2_0_0.tags) = true.
+Proof. exact SchemaWF_score_2_0_0.clean. Qed.
+Example C03_clean_testlib_1_0_2 : names_clean (map td_long Schema_testlib_1_0_2.tags) = true.
+Proof. exact SchemaWF_testlib_1_0_2.clean. Qed.
+Example C03_clean_testlib_2_0_0 : names_clean (map td_long Schema_testlib_2_0_0.tags) = true.
+Proof. exact SchemaWF_testlib_2_0_0.clean. Qed.
+Example C03_clean_testlib_2_1_0 : names_clean (map td_long Schema_testlib_2_1_0.tags) = true.
+Proof. exact SchemaWF_testlib_2_1_0.clean. Qed.
+Example C03_clean_testlib_3_0_0 : names_clean (map td_long Schema_testlib_3_0_0.tags) = true.
+Proof. exact SchemaWF_testlib_3_0_0.clean. Qed.
 
 (* non-vacuity: "ts:temporal-VALUE/duration/3 ms" against 8.3.0 loaded under namespace "ts:" is identified
    with .../Duration/#, short "ts:Duration/3 ms", long "ts:Property/.../Duration/3 ms", extension "3 ms";
